@@ -51,6 +51,13 @@ func fieldMutations(kr *Keyring, full bool) []fieldMut {
 			}
 			return true
 		}},
+		{"to:+1 byte", func(tx *rctypes.Trx) bool { tx.To = append(append([]byte{}, tx.To...), 0x01); return true }},
+		{"to:+12 bytes", func(tx *rctypes.Trx) bool {
+			tx.To = append(append([]byte{}, tx.To...), 0, 0, 0, 0, 0, 0, 0, 0, 0, 0, 0, 7)
+			return true
+		}},
+		{"to:-1 byte", func(tx *rctypes.Trx) bool { tx.To = append([]byte{}, tx.To[:19]...); return true }},
+		{"from:+1 byte", func(tx *rctypes.Trx) bool { tx.From = append(append([]byte{}, tx.From...), 0x01); return true }},
 		{"amount+1", func(tx *rctypes.Trx) bool { tx.Amount = addU256(tx.Amount, 1); return true }},
 		{"amount-1", func(tx *rctypes.Trx) bool {
 			if tx.Amount.IsZero() {
